@@ -305,11 +305,13 @@ def main(argv=None):
         print("KNOWN-FINDING: property=%s %s (%d witnesses this run; %s)" % (prop, known.describe(key), info["count"], key))
     if unlisted:
         seen = set()
+        per_oracle = {}
         for v in unlisted:
             sig = (v["oracle"], json.dumps(v["mech"], sort_keys=True, default=str))
-            if sig in seen:
+            if sig in seen or per_oracle.get(v["oracle"], 0) >= 2:
                 continue
             seen.add(sig)
+            per_oracle[v["oracle"]] = per_oracle.get(v["oracle"], 0) + 1
             rp = write_replay(v)
             print("  oracle=%s %s" % (v["oracle"], v["message"][:400].replace("\n", " | ")))
             print("VIOLATION property=%s replay=%s" % (prop, rp))
